@@ -14,6 +14,12 @@ CLAIMED = {
              note="Partial: the lexer-level layout theorem is missing (stated in DESIGN.md); whole-program induction (image = map encode) is covered only through per-statement theorems plus correspondence."),
  "C04": dict(ref="6/C04", text="Theorems C04_signed_iff / C04_unsigned_iff (a literal is accepted iff its value lies in the field's range), C04_expect_lit (accepted values are handed on unchanged), C04_offset_iff (a label reference is accepted iff its distance fits the 9/10/11-bit field), C04_no_spill (accepted operands never spill into a neighbouring field), C04_dup_label, C04_undefined_label. Tie: exhaustive boundary grid (every literal-taking form x boundary values x spellings, all trap vectors, label distances at/inside/beyond the range via .blkw, label/orig errors) through the public API vs the extracted model.",
              note="The whole-program 'iff' is assembled from operand-level theorems; the induction over the statement list is not mechanised yet."),
+ "C05": dict(ref="6/C05", text="Theorem C05_total (axiom-free): for EVERY source text (any list of Unicode scalar values), feature setting and inherited symbol table, the char-level model of the assembler (lexer, preprocessor, parser, backpatch, emission) ends in an image or a diagnostic, never in Bad — the model's rendering of unreachable!/assert!/unfilled-label panics and of a loop outliving its input (fuel is derived from the input length and proved sufficient); C05_total_check for the check/watch path; C05_lexer_progress (every token consumes input). Tie: 20k+ mutated/adversarial sources per run (multi-byte characters at and abutting every token position, NUL, unterminated strings, size extremes) through the public API under catch_unwind vs the extracted model; every rejection is rendered with miette and its labelled spans are checked to lie inside the source.",
+             note="Partial: 'diagnostic points inside the source' is checked on the implementation for every generated rejection but is not yet a theorem about the model's spans; arithmetic-overflow freedom is modelled where the code uses plain operators (line counter) and by wrapping where the fixed code wraps; miette rendering and allocation limits are outside the model."),
+ "C18": dict(ref="6/C18", text="Theorems C18_asm_flag (for every source and symbol table: the flag-off result is exactly the flag-on result or the diagnostic naming the stack feature), C18_asm_off (an identifier spelled push/pop/call/rets in any letter case yields that diagnostic), C18_vm_off (opcode 0xD with the flag off exits 1 executing nothing, for every word and state), C18_vm_irrelevant (a run that never fetches an opcode-0xD word is identical under both flag values, by induction over the run). Tie: assembler and VM correspondence under both flag values (mnemonics in every position and letter case, raw 0xD words reached / not reached / as data).",
+             note="clap's parsing of -f and Features::from_str are not modelled (exercised by the CLI checks of C06/C07)."),
+ "C19": dict(ref="6/C19", text="Theorem C19_pure: in the model the symbol table is the only state that survives an assembly; after the documented reset, assembling B equals assembling B from scratch whatever A was (C19_needs_reset shows the hypothesis is not vacuous). What a theorem about the model cannot show — that the real process has no OTHER leaking state — is carried by the correspondence: sequences of sources in one process (pairs with and without reset, triples, repetitions) through the public API vs the model, plus a direct comparison of the implementation's answer for B in a sequence with its answer for B alone.",
+             note="Partial by nature: the theorem is about the model's explicit state; hidden state in the Rust process (thread-locals, manual StaticSource::reclaim) is covered only by the runs."),
 }
 PENDING_REASON = "not claimed yet: its model/theorem/correspondence check is not built at this commit (work in progress, see DESIGN.md section 11)"
 NOT_APPLICABLE = {}
